@@ -1,14 +1,45 @@
 // C26 — BTC coin selection conserves UTXO value (model_checking).
+//
+// (a) selector.go: bounded-exhaustive over sorted UTXO sequences x script kinds x (target, min-change, fee rate) through
+//     CoinSelector.Select / SimpleBnbSearch / SortedSearch.
+// (b) handler.go: mc.BFS over histories of <= 3 withdrawals on the production path (ImportOuterTransfer -> BTCHandler.
+//     MakeTransaction -> makeBtcTx -> chooseUtxos) in a world seeded through the production BTC deposit path.
 package main
 
 import (
+	"os"
+	"runtime/debug"
+
+	_ "github.com/polynetwork/poly/native/service"
 	"verif.local/engine/ev"
 )
 
 func main() {
+	debug.SetGCPercent(300)
+	debug.SetMemoryLimit(5 << 30)
 	r := ev.Start("C26", "model_checking")
 	v := newVault()
-	cov := selectorLevel(r, v)
-	cov["rule"] = "tbd"
+	cov := map[string]any{}
+	only := os.Getenv("VERIF_C26_ONLY")
+	if only != "handler" {
+		for k, x := range selectorLevel(r, v) {
+			cov[k] = x
+		}
+	}
+	if only != "selector" {
+		for k, x := range handlerLevel(r, v) {
+			cov[k] = x
+		}
+	}
+	cov["rule"] = "selected inputs pairwise distinct, all in the unspent set of the redeem script, sum(values) == reported total, " +
+		"total == payment or total >= payment + min-change, fee == estimator(returned selection); per withdrawal: unspent' = unspent - selection, " +
+		"spent' = spent + selection, no outpoint selected twice in a history, change output == sum(inputs) - payment, outputs <= inputs"
+	r.Assume("the vote router's quorum logic (C25) delivers the X->BTC message unchanged to BTCHandler.MakeTransaction",
+		"regtest proof of work and a one-transaction merkle block stand in for real Bitcoin blocks on the deposit path",
+		"MultiSign (signature collection, change output re-entering the unspent set) is outside the explored alphabet")
+	if r.NViolations() == 0 {
+		r.Require("selector:select-returned", "selector:select-none", "selector:total-exact", "selector:total-with-change",
+			"handler:withdrawal-ok", "handler:withdrawal-rejected", "handler:total-exact", "handler:total-with-change")
+	}
 	r.Finish(cov)
 }
